@@ -817,6 +817,101 @@ def check_default_clone(ctx, cfg, rule="C08.D", only_default=False):
                     det = "default_boxed = repeat_with(T::default).take(N) collected into the box (boxed from_iter: C07 / C15): chain %s, generator is T::default: %s" % cd
             ctx.ob(rule, key, ok and c_ok, det, at=b["at"], cfg=cfg)
 
+def check_clone_from(ctx, cfg, rule="C08.D"):
+    """`Clone::clone_from` is part of the element-wise Clone: when the impl overrides it, it visits the indices once each in ascending order,
+    pairing self[i] with source[i] (the provided method, `*self = source.clone()`, does so through `clone`)."""
+    key = "<GenericArray<$0,$1> as core::clone::Clone>::clone_from"
+    db = ctx.db(cfg)
+    b = db.get(key)
+    k0 = "<GenericArray<$0,$1> as core::clone::Clone>::clone"
+    if b is None:
+        ctx.ob(rule, key, db.get(k0) is not None, "clone_from is not overridden: the provided method is `*self = source.clone()`, judged through clone", cfg=cfg)
+        return
+    an = ctx.analysis(cfg, key)
+    N_ = an.tenv.length(adt_args(b["impl_self"])[1])
+    A1, A2 = ("arg", 1), ("arg", 2)
+    pc = payload_calls(an)
+
+    def full_of(t, base, mut):
+        if isinstance(t, tuple) and t and t[0] == "P" and t[1] == base and not t[2].t and t[3] is None and not mut:
+            return True    # `&GenericArray` itself handed to zip: IntoIterator for &GA is the full forward slice iterator (C08.R / C02.D)
+        return full_slice(an, set(), t, N_, lambda bse: bse == base) and t[4] is mut
+
+    def pair_pipe(t):
+        """zip of the full forward traversals of self (mutable) and source (shared), in either order: which side is item.0 (0 or 1), or None"""
+        if not (isinstance(t, tuple) and len(t) == 5 and t[:3] == ("V", "iter", "zip")):
+            return None
+        if full_of(t[3], A1, True) and full_of(t[4], A2, False):
+            return 0
+        if full_of(t[3], A2, False) and full_of(t[4], A1, True):
+            return 1
+        return None
+    ok, det = False, "the override is none of the recognised element-wise forms (assignment of source.clone(); for_each or loop over zip(self.iter_mut(), source.iter()); index loop over 0..N)"
+    plumbing = ("core::slice::<impl [T]>::iter_mut", "core::slice::<impl [T]>::iter", "core::iter::IntoIterator::into_iter", "core::iter::Iterator::zip")
+    rest = [c for c in pc if c.fn not in plumbing]
+    fes = [c for c in rest if c.fn == "core::iter::Iterator::for_each"]
+    cl = [c for c in rest if c.fn == "core::clone::Clone::clone"]
+    from ..loops import find_loops
+    lps = find_loops(an)
+    if len(rest) == 1 and len(cl) == 1 and not lps:
+        src_ok = cl[0].args[0][0] == "P" and cl[0].args[0][1] == A2 and not cl[0].args[0][2].t and tstr(cl[0].targs[0]) == tstr(b["impl_self"])
+        st = [x for x in an.stores if x["cell"] == (A1, ()) and x["val"] == cl[0].ret]
+        ok = src_ok and len(st) == 1
+        det = "clone_from = `*self = source.clone()` (the whole clone of source, C08.D, assigned to *self): %s" % ok
+    elif len(rest) == 1 and len(fes) == 1 and not lps:
+        side = pair_pipe(fes[0].args[0])
+        cb, ca = closure_body(ctx, cfg, fes[0].args[1])
+        c_ok = False
+        if ca is not None and side is not None:
+            item = ("V", "arg", 2)
+            def proj(i):
+                return ("obj", ("proj", ("proj", item, (i,))))
+            cf = [c for c in ca.calls if c.fn == "core::clone::Clone::clone_from"]
+            pcs = payload_calls(ca)
+            c_ok = (len(cf) == 1 and len(pcs) == 1 and cf[0].args[0][0] == "P" and cf[0].args[0][1] == proj(side) and cf[0].args[1][0] == "P" and cf[0].args[1][1] == proj(1 - side)
+                    and count_on_paths(ca, lambda c: c.fn == "core::clone::Clone::clone_from") == {1})
+            if not c_ok:
+                cc = [c for c in ca.calls if c.fn == "core::clone::Clone::clone"]
+                st = [x for x in ca.stores if cc and x["val"] == cc[0].ret and x["cell"][0] == proj(side)]
+                c_ok = len(cc) == 1 and len(pcs) == 1 and cc[0].args[0][0] == "P" and cc[0].args[0][1] == proj(1 - side) and len(st) == 1 and count_on_paths(ca, lambda c: c.fn == "core::clone::Clone::clone") == {1}
+        ok = side is not None and c_ok and not bad_adaptors(fes[0].args[0])
+        det = "clone_from = for_each over zip of the full forward traversals of self and source: %s; the closure clones item i of source into item i of self exactly once: %s" % (side is not None, c_ok)
+    elif len(lps) == 1 and not fes:
+        lp = lps[0]
+        side = pair_pipe(lp.pipe)
+        slots = lp.slot_ptrs()
+        if side is not None and not lp.backward:
+            mine = [p_ for p_ in slots if p_[1] == A1]
+            theirs = [p_ for p_ in slots if p_[1] == A2]
+            cf = [c for c in lp.calls() if c.fn == "core::clone::Clone::clone_from"]
+            inner = [c for c in lp.calls() if c in pc and c.fn != "core::iter::Iterator::next"]
+            c_ok = (len(mine) == 1 and len(theirs) == 1 and len(cf) == 1 and len(inner) == 1 and cf[0].args[0][:3] == mine[0][:3] and cf[0].args[1][:3] == theirs[0][:3]
+                    and lp.count_on_paths(lambda c: c.fn == "core::clone::Clone::clone_from") == {1})
+            if not c_ok and len(mine) == 1 and len(theirs) == 1:
+                cc = [c for c in lp.calls() if c.fn == "core::clone::Clone::clone"]
+                st = [x for x in an.stores if cc and x["val"] == cc[0].ret and x["site"][0] in lp.blocks]
+                c_ok = (len(cc) == 1 and len(inner) == 1 and cc[0].args[0][:3] == theirs[0][:3] and len(st) == 1 and lp.count_on_paths(lambda c: c.fn == "core::clone::Clone::clone") == {1}
+                        and st[0]["cell"] == (("off", mine[0][1], mine[0][2]), ()))
+            outside = [c for c in rest if c.bb not in lp.blocks and c.fn != "core::iter::Iterator::next"]
+            none_only = bool(an.returns) and all(("variant", lp.nxt.ret, 0) in r["facts"] for r in an.returns)
+            ok = c_ok and not lp.breaks and not outside and none_only
+            det = "clone_from = loop over zip of the full forward traversals of self and source; each step clones item i of source into item i of self exactly once: %s; left only on None: %s" % (c_ok, not lp.breaks and none_only)
+        elif isinstance(lp.pipe, tuple) and len(lp.pipe) == 3 and lp.pipe[0] == "A" and isinstance(lp.pipe[1], tuple) and lp.pipe[1][:2] == ("adt", "core::ops::Range") and lp.nxt.ret[1][0] == "I":
+            lo_, hi_ = lp.pipe[2][0], lp.pipe[2][1]
+            full = lo_ == ("I", Poly.const(0)) and hi_[0] == "I" and hi_[1] == N_
+            idx = lp.nxt.ret[1]
+            cc = [c for c in lp.calls() if c.fn == "core::clone::Clone::clone"]
+            inner = [c for c in lp.calls() if c in pc and c.fn != "core::iter::Iterator::next"]
+            want_src = ("field", A2, (("idx", idx),))
+            st = [x for x in an.stores if cc and x["val"] == cc[0].ret and x["site"][0] in lp.blocks and x["cell"] == (A1, (("idx", idx),))]
+            c_ok = (len(cc) == 1 and len(inner) == 1 and cc[0].args[0][0] == "P" and cc[0].args[0][1] == want_src and not cc[0].args[0][2].t and len(st) == 1
+                    and lp.count_on_paths(lambda c: c.fn == "core::clone::Clone::clone") == {1})
+            none_only = bool(an.returns) and all(("variant", lp.nxt.ret, 0) in r["facts"] for r in an.returns)
+            outside = [c for c in rest if c.bb not in lp.blocks and c.fn != "core::iter::Iterator::next"]
+            ok = full and c_ok and not lp.breaks and none_only and not outside
+            det = "clone_from = loop over the index range 0..N: %s; each step assigns source[i].clone() to self[i] exactly once: %s; left only when the range is exhausted: %s" % (full, c_ok, not lp.breaks and none_only)
+    ctx.ob(rule, key, ok, det, at=b["at"], cfg=cfg)
+
 
 def check(ctx):
     ctx.explanation = EXPLANATION
@@ -853,6 +948,7 @@ def check(ctx):
         r = check_receivers(ctx, cfg)
         ctx.floor("C08.R", "receiver-form obligations (%s)" % cfg, r, 8)
         check_default_clone(ctx, cfg)
+        check_clone_from(ctx, cfg)
         # every map / zip / clone above ends in from_iter: that it turns a source of exactly N items into the array of those items, in order,
         # for every N (0 included) is C07's statement - its rules are run here instead of being assumed
         from . import c07 as _c07
